@@ -344,7 +344,7 @@ func (s *Store) Close() {
 // copying.  The copy will not include any old items or nodes so the
 // copy should be more compact if flushEvery is relatively large.
 func (s *Store) CopyTo(dstFile StoreFile, flushEvery int) (res *Store, err error) {
-	dstStore, err := NewStore(dstFile)
+	dstStore, err := NewStoreEx(dstFile, s.callbacks)
 	if err != nil {
 		return nil, err
 	}
